@@ -500,6 +500,25 @@ def check_c09(A: Analysis, has_halt_rule: bool) -> Dict[str, Any]:
     normal, hft = A.normal, A.hft
     stats = collections.Counter()
     full_orders = []
+    # interleaving: a high-frequency agent acts on the book as it is NOW -- what it returns is accepted (and matched) before
+    # the next agent is consulted.  Witness of an acceptance: the logger's record or the owner's callback.
+    acc_pos: Dict[Tuple[int, int], int] = {}
+    for i, (k, kw) in enumerate(A.items):
+        if (k == "log.write" and isinstance(kw["log"], OrderLog)) or k == "cb.submitted":
+            acc_pos.setdefault((kw["log"].market_id, kw["log"].order_id), i)
+    consult_idx = [i for i, _ in A.consults]
+    for n_c, (i, kw) in enumerate(A.consults):
+        if not kw["hft"] or not kw["raw"]:
+            continue
+        nxt = consult_idx[n_c + 1] if n_c + 1 < len(consult_idx) else None
+        for o in kw["raw"]:
+            if not isinstance(o, Order) or o.order_id is None:
+                continue
+            pos = acc_pos.get((o.market_id, o.order_id))
+            if pos is not None and nxt is not None and pos > nxt:
+                raise Violation("C09.hft_interleaving", f"the order of high-frequency agent {kw['agent']} (consulted at trace item {i}) was accepted at item {pos}, "
+                                                        f"after the next agent had already been consulted (item {nxt})")
+            stats["hft_orders_interleaved"] += 1
     for s in A.steps:
         ses = s["session"]
         cs = A.sess_cfg[ses.session_id]
